@@ -9,8 +9,16 @@ KINDS = ['ok', 'ok_json_accept', 'notfound', 'notfound_json', 'wrongverb', 'badp
          'cookie_then_abort', 'head_ok', 'rex', 'typed', 'expires', 'longpath', 'longquery', 'status_str', 'status_int', 'signed', 'urlinfo', 'auth', 'bigform', 'chunked_ok', 'header_case', 'inject_arg', 'notmodified', 'nocontent', 'blog_direct', 'dm_info', 'resp_copy', 'form_fixed', 'sess_mutate', 'qs_reassign', 'api_404', 'api_item', 'neg_cl', 'hugepath', 'urlbuild', 'manyheaders', 'emptyform', 'emptybody', 'upload_headers', 'latin_gen', 'hdr_types', 'notmod_noetag', 'badstart']
 
 
+# kinds for the thread check (C08) only, kept out of KINDS so that the all-pairs grids of the history / multi-application checks do not grow:
+# a code WITHOUT a standard reason phrase given as text with a phrase of the request's own / as a number (set on the response, raised, aborted);
+# text streamed piece by piece in a charset whose encoder keeps state between the pieces (byte order mark)
+KINDS_THREADS = ['reason_text', 'reason_int', 'reason_raise_text', 'reason_abort_int', 'bom16_gen', 'bom32_gen', 'bomsig_gen']
 # kinds for sequential histories only (their handlers change application-wide state on purpose: hooks, a shared prepared error object)
 KINDS_SEQ = KINDS + ['oneshot', 'prepared_error', 'static_plain', 'static_range', 'static_ims', 'static_dl']       # (static_file reads the module-level request: outside the K10 shim only)
+
+# more kinds for sequential histories: verbs of every sort on routes registered for GET only (HEAD is answered through GET, the others are refused with an Allow list),
+# arbitrary verbs on a route registered for ANY, bodies of several sizes beyond max_memfile_size (spilled to a file) read to EOF through request.body
+KINDS_SEQ = KINDS_SEQ + ['verb_on_get_route', 'verb_on_any_route', 'spilled_body']
 
 _DEFAULT_ERRORS = []
 
@@ -156,6 +164,35 @@ def make_app(probe=None, config=None, private_errors=False, app=None, foreign=No
         rs.content_type = 'text/plain; charset=%s' % ['latin1', 'utf-16-le', 'cp1252', 'utf-8'][n % 4]
         words = ['caf\xe9 %d' % n, ' na\xefve', ' \xfcber', ' end']
         return (w for w in words)
+
+    @app.route('/reason', overwrite=True)
+    def reason():
+        # a status code that has no standard reason phrase: as text with a phrase of this request's own, or as a bare number
+        how, n, code = rq.query.get('how'), rq.query.get('n', '0'), int(rq.query.get('code', '299'))
+        rs.headers['X-Reason'] = 'r' + n
+        if how == 'text':
+            rs.status = '%d Reason of %s' % (code, n)
+        elif how == 'int':
+            rs.status = code
+        elif how == 'raise_text':
+            raise ombott.HTTPResponse('reason raised ' + n, '%d Raised reason %s' % (code, n))
+        elif how == 'abort_int':
+            ombott.abort(code, 'reason abort ' + n)
+        p('reason:end')
+        return 'reason %s %s' % (how, n)
+
+    @app.route('/bom', overwrite=True)
+    def bom():
+        # text streamed in pieces in a charset that starts a text with a byte order mark (its encoder keeps state from piece to piece)
+        n = int(rq.query.get('n', '0'))
+        rs.content_type = 'text/plain; charset=%s' % rq.query.get('cs', 'utf-16')
+        words = ['bom %d' % n, ' caf\xe9', ' €%d' % n, ' end']
+
+        def g():
+            for w in words:
+                p('bom:piece')
+                yield w
+        return g()
 
     @app.route('/upload', method='POST', overwrite=True)
     def upload():
@@ -359,6 +396,17 @@ def make_app(probe=None, config=None, private_errors=False, app=None, foreign=No
         return 'api 404 %s %s' % (route, rq.path)
     app.error(404, rule='/api')(api_404)
 
+    @app.route('/anyverb', method='ANY', overwrite=True)
+    def anyverb():
+        return 'anyverb %s %s' % (rq.method, rq.query.get('q', ''))
+
+    @app.route('/rawbody', method='POST', overwrite=True)
+    def rawbody():
+        # everything request.body holds, read to EOF (not bounded by the declared length): length, digest, both ends
+        import hashlib
+        data = rq.body.read()
+        return 'rawbody %d %s %r %r' % (len(data), hashlib.sha1(data).hexdigest(), data[:12], data[-12:])
+
     @app.route('/abort', overwrite=True)
     def ab():
         rs.set_cookie('pre', 'abort' + rq.query.get('q', ''))
@@ -459,6 +507,11 @@ def make_env(kind, n, stream_cls=Stream):
         return _e('POST', '/form', q, stream=stream_cls(data), content_length=len(data), headers={'Content-Type': 'multipart/form-data; boundary=' + b})
     if kind == 'latin_gen':
         return _e('GET', '/latin', 'n=%d' % n)
+    if kind in ('reason_text', 'reason_int', 'reason_raise_text', 'reason_abort_int'):
+        # requests 0-7 share one code, 8-15 the next, ... (none of them has a standard phrase)
+        return _e('GET', '/reason', 'how=%s&n=%d&code=%d' % (kind[7:], n, 296 + n // 8))
+    if kind in ('bom16_gen', 'bom32_gen', 'bomsig_gen'):
+        return _e('GET', '/bom', 'n=%d&cs=%s' % (n, {'bom16_gen': 'utf-16', 'bom32_gen': 'utf-32', 'bomsig_gen': 'utf-8-sig'}[kind]))
     if kind == 'qs_reassign':
         return _e('GET', '/reassign', q, headers={'Cookie': 'seen=v%d' % n})
     if kind == 'api_404':
@@ -516,6 +569,20 @@ def make_env(kind, n, stream_cls=Stream):
     if kind == 'auth':
         import base64
         return _e('GET', '/auth', q, headers={'Authorization': 'Basic ' + base64.b64encode(('user%d:pw%d' % (n, n)).encode()).decode(), 'X-Forwarded-For': '10.9.8.%d' % (n % 250)})
+    if kind == 'verb_on_get_route':
+        # routes registered for GET only: HEAD falls back to GET, every other verb is refused (405 with the list of allowed verbs)
+        return _e(['POST', 'HEAD', 'DELETE', 'HEAD', 'PUT', 'OPTIONS', 'PATCH'][n % 7], ['/ok', '/gen', '/hcase'][(n // 7) % 3], q)
+    if kind == 'verb_on_any_route':
+        # a route registered for ANY: standard and made-up verbs, a different one for (nearly) every n
+        return _e(['GET', 'HEAD', 'VERB%d' % n, 'POST', 'X%dY' % n][n % 5], '/anyverb', q)
+    if kind == 'spilled_body':
+        # a body beyond max_memfile_size (160) and below max_body_size (600): spilled to a file; sizes go down as n goes up (within a decade), content differs
+        data = ((b'<%d>' % n) * 200)[:590 - 43 * (n % 10)]
+        if n % 4 == 0:
+            from .encoders import encode_chunked
+            wire, _ = encode_chunked(data, [150, 97, 300])
+            return _e('POST', '/rawbody', q, stream=stream_cls(wire), content_length=None, headers={'Transfer-Encoding': 'chunked'})
+        return _e('POST', '/rawbody', q, stream=stream_cls(data), content_length=len(data))
     if kind == 'raised':
         return _e('GET', '/raised', q)
     if kind == 'gen':
